@@ -108,6 +108,21 @@ var c13Ops = []c13Op{
 	{"Fields.Names", onSelect(func(q *influxql.SelectStatement) { _ = q.Fields.Names(); _ = q.Fields.AliasNames(); _ = q.Fields.String() })},
 	{"HasWildcard", onSelect(func(q *influxql.SelectStatement) { _ = q.HasWildcard(); _ = q.HasFieldWildcard(); _ = q.HasDimensionWildcard(); _ = q.TimeAscending() })},
 	{"Reduce", onSelect(func(q *influxql.SelectStatement) { _ = q.Reduce(&influxql.NowValuer{Now: c13Now}).String() })},
+	// what a query planner does next: every accessor on the reduced statement (now() folded to an instant, arithmetic folded)
+	{"accessors after Reduce", onSelect(func(q *influxql.SelectStatement) {
+		for _, loc := range []*time.Location{nil, time.FixedZone("z", 3600)} {
+			r := q.Reduce(&influxql.NowValuer{Now: c13Now, Location: loc})
+			_, _ = r.GroupByInterval()
+			_, _ = r.GroupByOffset()
+			_, _ = r.Dimensions.Normalize()
+			_ = r.ColumnNames()
+			_ = r.String()
+			_, _, _ = influxql.ConditionExpr(r.Condition, nil)
+			if rr, err := r.RewriteFields(c13Mapper{0}); err == nil && rr != nil {
+				_, _ = rr.GroupByOffset()
+			}
+		}
+	})},
 	{"RewriteFields", onSelect(func(q *influxql.SelectStatement) {
 		for v := 0; v < 4; v++ {
 			if r, err := q.RewriteFields(c13Mapper{v}); err == nil && r != nil {
@@ -255,7 +270,9 @@ func c13One(o *out, text string, tag string) {
 }
 
 var c13Witnesses = []string{
-	"SELECT top() FROM m", "SELECT bottom() FROM m", "SELECT top(a) FROM m", "SELECT v FROM m GROUP BY time(0s, 1s)", "SELECT v FROM m GROUP BY time()", "SELECT v FROM m GROUP BY time(x)",
+	"SELECT top() FROM m", "SELECT bottom() FROM m", "SELECT top(a) FROM m", "SELECT v FROM m GROUP BY time(0s, 1s)", "SELECT v FROM m GROUP BY time(0s, now())", "SELECT v FROM m GROUP BY time(1m - 1m, now())", "SELECT v FROM m GROUP BY time(1m, now())",
+	"SELECT v FROM m GROUP BY time(0s, '2000-01-01T00:00:00Z')", "SELECT v FROM m GROUP BY time(2m - 1m - 1m, now() - 1h)", "SELECT x FROM (SELECT top(value) FROM cpu)", "SELECT x FROM (SELECT bottom(value) FROM cpu)",
+	"SELECT * FROM (SELECT top(value) FROM cpu)", "SELECT x FROM (SELECT top(value, 1) FROM cpu)", "SELECT v FROM m GROUP BY time()", "SELECT v FROM m GROUP BY time(x)",
 	"SELECT v FROM m GROUP BY f(1)", "SELECT v FROM m GROUP BY time(1s, 2s, 3s)", "SELECT v FROM m GROUP BY time(1s, now())", "SELECT v FROM m GROUP BY time(1s, '2000-01-01T00:00:00Z')",
 	"SELECT v FROM m GROUP BY time(-1s, 5s)", "SELECT v FROM m WHERE time > 10s / 0.5", "SELECT v FROM m WHERE time > 10s / 0", "SELECT v FROM m WHERE time > 10s * 1.5", "SELECT v FROM m WHERE 10s / 0.2 > time",
 	"SELECT v FROM m WHERE x =~ y", "SELECT v FROM m WHERE x =~ /a/ AND y !~ /b/", "SELECT v FROM m WHERE /a/ = x", "SELECT * FROM m WHERE time > now()", "SELECT *::tag, *::field FROM m GROUP BY *",
